@@ -535,3 +535,93 @@ def r06_9(ctx, run, rule='R06.9', which=('bytes', 'tree')):
             run.proved(rule, b.path, 'tree-walker', f'{n} iteration path(s): every element that can be a container is visited recursively', loc)
         else:
             run.undecided(rule, b.path, 'tree-walker', 'no element loop found in the tree walker: its traversal is not in a shape this rule reads', loc)
+
+
+def r07_8(ctx, run, rule='R07.8'):
+    """A Position::Container may denote the whole root document, and a root document may be a scalar (header kind SCALAR).
+    A selector writer that nests the copied bytes under a CONTAINER_TAG entry word must therefore have excluded the scalar
+    header kind on that path (or no producer records the root as a Container without testing its kind)."""
+    f = ctx.facts
+    CONTAINER_TAG = cv(f, 'CONTAINER_TAG')
+    MASK = cv(f, 'CONTAINER_HEADER_TYPE_MASK')
+    SCALAR = cv(f, 'SCALAR_CONTAINER_TAG')
+    if None in (CONTAINER_TAG, MASK, SCALAR):
+        run.undecided(rule, 'constants', 'anchors', 'CONTAINER_TAG / CONTAINER_HEADER_TYPE_MASK / SCALAR_CONTAINER_TAG not found (anchor lost)')
+        return
+    # producers: Position::Container((0, len(root))) recorded on a path with no header-kind test
+    def kind_tested(q, exclude=False):
+        """A header-kind test on the path; with exclude=True it must rule the SCALAR kind out."""
+        for c in q.conds:
+            t = c[0]
+            masked = lambda s: s[0] == 'bin' and s[1] == 'BitAnd' and any(x[0] == 'const' and x[1] == MASK for x in (s[2], s[3]))
+            if not any(masked(s) for s in subterms(t)):
+                continue
+            if not exclude:
+                return True
+            if masked(t):
+                if (c[1] == 'eq' and c[2] != SCALAR) or (c[1] == 'ne' and isinstance(c[2], tuple) and SCALAR in c[2]):
+                    return True
+            elif t[0] == 'bin' and t[1] in ('Eq', 'Ne') and any(const_of(x) == SCALAR for x in (t[2], t[3])):
+                if (t[1] == 'Eq') == (c[2] is False):
+                    return True
+        return False
+    root_producers = []
+    for p, b in sorted(f.bodies.items()):
+        if not p.startswith("jsonpath::selector::Selector::<'a>::") or b.kind == 'Promoted':
+            continue
+        paths, loops = region_paths(b)
+        for q in paths:
+            vals = [v for k, v in q.store.items() if isinstance(v, tuple)] + [a for e in q.calls() for a in e[2]]
+            for v in vals:
+                for s in subterms(v):
+                    if agg_variant(s) and s[1][1].endswith('selector::Position') and s[1][2] == 'Container' and s[2]:
+                        tup = deref_all(s[2][0])
+                        if tup[0] == 'agg' and tup[1] == 'tuple' and len(tup[2]) == 2 and const_of(tup[2][0]) == 0 and not kind_tested(q):
+                            root_producers.append(p)
+    root_producers = sorted(set(root_producers))
+    n = 0
+    for p, b in sorted(f.bodies.items()):
+        if not p.startswith("jsonpath::selector::Selector::<'a>::") or b.kind == 'Promoted':
+            continue
+        paths, loops = region_paths(b)
+        nested = bad = unsure = 0
+        root_locals = {i for i in range(1, b.argc + 1) if b.name_of(i) == 'root' or '[u8]' in str(b.local_ty(i).get('s', ''))}
+        def looks_at_root(t):
+            """a condition computed from the document bytes by something this rule does not read (a helper call, a comparison of bytes)"""
+            return any(s_[0] == 'init' and s_[1] in root_locals for s_ in subterms(t)) and any(s_[0] in ('call', 'index') or (s_[0] == 'bin' and s_[1] == 'BitAnd') for s_ in subterms(t))
+        for q in paths:
+            hit = False
+            for e in q.calls():
+                for a in e[2]:
+                    for s in subterms(a):
+                        if s[0] == 'bin' and s[1] == 'BitOr' and any(const_of(x) == CONTAINER_TAG for x in (s[2], s[3])):
+                            hit = True
+            if q.ret is not None and any(s[0] == 'bin' and s[1] == 'BitOr' and any(const_of(x) == CONTAINER_TAG for x in (s[2], s[3])) for s in subterms(q.ret)):
+                hit = True
+            if not hit:
+                continue
+            nested += 1
+            ok = kind_tested(q, exclude=True) or any(c[0][0] == 'discr' and is_call(c[0][1], 'slice::get', '::get') and ((c[1] == 'eq' and c[2] == 0) or (c[1] == 'ne' and 1 in c[2])) for c in q.conds)
+            if ok:
+                continue
+            if any(looks_at_root(c[0]) for c in q.conds):
+                unsure += 1
+            else:
+                bad += 1
+        if not nested:
+            continue
+        n += 1
+        loc = f'{b.file}:{b.line}'
+        if not bad and not unsure:
+            run.proved(rule, p, 'nested-entry', f'{nested} path(s) emit a CONTAINER_TAG entry for copied bytes, each after the header kind of those bytes was tested', loc)
+        elif not root_producers:
+            run.proved(rule, p, 'nested-entry', 'no selector function records the whole root as a Container position without testing its header kind', loc)
+        elif not bad:
+            run.undecided(rule, p, 'nested-entry', f'{unsure} path(s) give copied bytes a CONTAINER_TAG entry word after a test on the document bytes that this rule does not read (a helper?): '
+                          'whether it excludes a scalar document is not decided', loc)
+        else:
+            run.violation(rule, p, 'nested-entry', f'{bad} path(s) copy the bytes of a Container position and give them a CONTAINER_TAG entry word without testing their header kind, while '
+                          f'{root_producers[0].split("::")[-1]} records the whole root document (which may be a scalar document) as a Container position: `$` on a scalar root '
+                          'in array mode nests a scalar document as an element, which is not the canonical encoding', loc)
+    if not n:
+        run.undecided(rule, 'selector writers', 'nested-entry', 'no selector function emits a CONTAINER_TAG entry word for copied bytes (moved?): not decided')
